@@ -177,7 +177,12 @@ func (x *Exec) runTop() {
 				if en.At != "" {
 					ins := fr.retBlock[ri].Instrs[len(fr.retBlock[ri].Instrs)-1]
 					line := x.lineText(ins.Pos())
-					if !strings.Contains(line, en.At) {
+					if en.At == "end" {
+						// the implicit return at the closing brace of a function without results
+						if ins.Pos().IsValid() && strings.Contains(line, "return") {
+							continue
+						}
+					} else if !strings.Contains(line, en.At) {
 						continue
 					}
 					matched++
@@ -330,7 +335,7 @@ func (x *Exec) frameObligations(fr *Frame, penv *SpecEnv, exit *State) {
 		srt := x.S.heaps[h]
 		var goal Term
 		if strings.HasPrefix(srt, "(Array Int ") {
-			conds := []Term{{fmt.Sprintf("(<= r!fr %s)", x.entry.Alloc.S), "Bool"}, {"(>= r!fr 0)", "Bool"}}
+			conds := []Term{{fmt.Sprintf("(<= r!fr %s)", x.entry.Alloc.S), "Bool"}, {"(> r!fr 0)", "Bool"}} // reference 0 is nil, never an object
 			for _, r := range ex[h] {
 				conds = append(conds, mkNot(mkEq(Term{"r!fr", "Int"}, r)))
 			}
